@@ -88,6 +88,11 @@ func runC05(env *Env, tier string) {
 	// cut performs a link cut one stimulus at a time (R1): kept bytes, then EOF per side, settling between
 	cut := func(l *simnet.Link, ka, kb int, rerr error) {
 		l.CutBegin(ka, kb)
+		if ch.Chance("writesfail", 1, 2) {
+			// the writers see the reset too: their next Write fails instead of vanishing
+			l.FailWrites(fmt.Errorf("write: broken pipe"))
+			env.Stat("fault_write_error_after_cut")
+		}
 		for l.CutDeliverNext() {
 			env.Settle()
 		}
@@ -116,7 +121,7 @@ func runC05(env *Env, tier string) {
 			env.Settle()
 		}
 		if !(I.eng.StopFinished() && A.eng.StopFinished()) {
-			panic(harnessError{"engines did not stop in teardown"})
+			env.EngineStuck("engines did not stop within 200 simulated seconds of Stop() in teardown")
 		}
 		for _, s := range []*c05Side{I, A} {
 			for _, st := range s.eng.SF.All {
@@ -284,7 +289,7 @@ func runC05(env *Env, tier string) {
 				adv(200 * time.Millisecond)
 			}
 			if !old.StopFinished() {
-				env.Fatalf("crashed engine did not stop")
+				env.EngineStuck("a discarded engine did not stop within 20 simulated seconds of Stop()")
 			}
 			s.restarts++
 			start(s)
